@@ -355,7 +355,7 @@ func (q *Queue[T]) Distributor() Distributor[T] {
 			msg, err = q.Wait(ctx)
 			return msg, err
 		},
-		size: q.tracker.len,
+		size: q.Len,
 	}
 }
 
